@@ -78,7 +78,13 @@ class HybridRunner(ScenarioRunner):
                     output[series_name] = {} if series_name not in output.keys() else output[series_name]
                     output[series_name][t] = value
 
-        return pd.DataFrame(output).fillna(0)
+        df = pd.DataFrame(output)
+
+        if len(df.columns) > 0:
+            # keep a row (of zeros) for recorded times at which all requested states were empty
+            df = df.reindex(list(res.keys()))
+
+        return df.fillna(0)
 
     def run_scenario(self, abm_results_dict, return_format, scenarios, equations=[], agents=[], scenario_managers=[], progress_bar=False, agent_states=[], agent_properties=[], agent_property_types=[], rerun=False, widget=False):
         """
